@@ -215,7 +215,8 @@ PROPS = {
                 ["counters_exact", "pool_connections_only", "tables_run", "published_matches_pool", "err_picker_iff_tf", "pub_run"]],
                 leanchecker=["GcpVerif.Proofs.PoolPublish"]),
     "C05": dict(pool_prop([]), theorems=[("GcpVerif.Proofs.PoolTables", "GcpVerif.Pool." + n) for n in
-                ["pool_connections_only", "tables_run"]]),
+                ["pool_connections_only", "tables_run"]] + [("GcpVerif.Proofs.PoolValid", "GcpVerif.Pool." + n) for n in
+                ["pool_never_panics", "slots_exist", "valid_run"]]),
     "C06": pool_prop_plus([], [("GcpVerif.Proofs.Sync", "GcpVerif.Sync.c06_no_self_acquire"), ("GcpVerif.Proofs.Sync", "GcpVerif.Sync.c06_order_acyclic")], ["wall-clock bounds are observed by the harness watchdog (3 s per call), not proved"]),
     "C07": pool_prop(["disabled_never_refreshes", "response_resets", "isResponse_iff", "stale_call_ignored", "refresh_trigger", "window_exponential", "window_monotone_or_saturated", "refresh_once"], ["unresponsive_detection_ms * 2^k < 2^32 (the Go code computes the window in uint32; known finding K2)"]),
     "C08": pool_prop(["fallback_sticky", "fallback_new", "bound_ready_home", "lookup_preserves_binding"]),
